@@ -4,7 +4,8 @@ from __future__ import annotations
 
 import itertools
 
-from ..bufcases import REGIMES, Vals, exhaustive_ops, fields, fmt, load_corpus, optv, parse, random_ops
+from ..bufcases import (REGIMES, Vals, exhaustive_ops, fields, fmt, load_corpus, make_multi, multi_nontrivial, multi_obs,
+                        multi_sim_op, optv, parse, probe_orders, random_multi_ops, random_ops, reduce_multi)
 from ..common import Check
 from ..lockstep import Case, lockstep, replay_case
 from ..simrun import CompSim, fmt_opt
@@ -20,7 +21,8 @@ META = {
     "(power of two or not), every data value and every history of simultaneous write/read/peek/clear attempts; the model is "
     "tied to the code by cycle-exact comparison of done bits, returned data, the three ready signals, level and the head "
     "register over depths 0..9 (thorough 0..17, 31..33), several layouts, directed fill/drain/read+write-at-every-level/clear "
-    "sequences, random regimes and (thorough) all histories up to length 3 for depths 1..3",
+    "sequences, random regimes and (thorough) all histories up to length 3 for depths 1..3"
+    " Multi-caller scenarios: a wrapper owning the real component with two AdapterTrans on each of write/read/peek; per cycle each caller attempts independently, the model grants exclusive methods to the first attempting caller in the priority order probed from the real scheduler (c16_callers theorem: at most one caller executes and it sees the single-port outcome), the monitor accepts either winner and checks at-most-one executing caller per exclusive method and exactly-once in-order delivery over the union of all callers.",
     "level_note": "trusted: Lean kernel with axioms propext/Classical.choice/Quot.sound; Amaranth semantics, amaranth.lib.memory "
     "(transparent sync read port; out-of-range address: write dropped, read gives 0, transparency still forwards) and pysim; "
     "data layouts flattened to one number; TransactionManager wiring of conflict-free methods is C01-C05.",
@@ -33,12 +35,15 @@ def _layout(widths):
     return [(f"f{i}", w) for i, w in enumerate(widths)]
 
 
-def _sim(depth: int, widths: tuple) -> CompSim:
-    key = (depth, widths)
+def _sim(depth: int, widths: tuple, callers: int = 0) -> CompSim:
+    key = (depth, widths, callers)
     if key not in _sims:
         from transactron.lib.stack import Stack
 
-        _sims[key] = CompSim(lambda: Stack(_layout(widths), depth))
+        if callers:
+            _sims[key] = CompSim(lambda: make_multi(Stack(_layout(widths), depth), callers))
+        else:
+            _sims[key] = CompSim(lambda: Stack(_layout(widths), depth))
     return _sims[key]
 
 
@@ -51,11 +56,19 @@ def impl(case: Case) -> list[str]:
 
 def _impl(case: Case) -> list[str]:
     d = case.desc
-    sim = _sim(d["depth"], tuple(d["layout"]))
+    callers = d.get("callers", 0)
+    sim = _sim(d["depth"], tuple(d["layout"]), callers)
+    out = ["ok"]
+    if callers:
+        tr = sim.run([multi_sim_op(line, True) for line in case.ops],
+                     extra=lambda dut: [dut.inner.read.ready, dut.inner.peek.ready, dut.inner.write.ready, dut.inner.level, dut.inner.head])
+        for r in tr:
+            e = r["_extra"]
+            out.append(f"{multi_obs(r, callers, True)} rdy={e[0]}{e[1]}{e[2]} lvl={e[3]} head={e[4]}")
+        return out
     cycs = [parse(line) for line in case.ops]
     ops = [{"write": w, "read": 0 if r else None, "peek": 0 if p else None, "clear": 0 if c else None} for w, r, p, c in cycs]
     tr = sim.run(ops, extra=lambda dut: [dut.read.ready, dut.peek.ready, dut.write.ready, dut.level, dut.head])
-    out = ["ok"]
     for r in tr:
         e = r["_extra"]
         out.append(
@@ -70,6 +83,11 @@ def monitor(case: Case, out: list[str]):
     depth = case.desc["depth"]
     if out[0] != "ok":
         return f"the component does not elaborate/simulate: {out[0]}"
+    if case.desc.get("callers"):
+        # several transactions call the same method: exclusivity first, then the property on the union of all callers
+        fail, case, out = reduce_multi(case, out)
+        if fail:
+            return f"Stack: {fail}"
     st: list[int] = []
     for k, (line, obs) in enumerate(zip(case.ops, out[1:])):
         w, r, p, c = parse(line)
@@ -107,6 +125,8 @@ def nontrivial(case: Case, out: list[str]) -> bool:
     depth = case.desc["depth"]
     if out[0] != "ok":
         return False
+    if case.desc.get("callers"):
+        return multi_nontrivial(case, out)
     full = empty_after = False
     for obs in out[1:]:
         f = fields(obs)
@@ -125,6 +145,28 @@ def _mk(depth: int, widths: tuple, cycs, tag: str) -> Case:
         {"component": "Stack", "depth": depth, "layout": list(widths)},
         tag,
     )
+
+
+def _mk_multi(depth: int, widths: tuple, lines: list[str], tag: str, callers: int = 2) -> Case:
+    pw, pr = probe_orders(_sim(depth, widths, callers), callers)
+    return Case(
+        f"cfg depth={depth} w={sum(widths)} callers={callers} pw={','.join(map(str, pw))} pr={','.join(map(str, pr))}",
+        lines,
+        {"component": "Stack", "depth": depth, "layout": list(widths), "callers": callers},
+        tag,
+    )
+
+
+def gen_multi(ctx: Check) -> list[Case]:
+    """two independent transactions on each of write / read / peek of the same Stack"""
+    rng = ctx.rng("multi")
+    cases = []
+    for depth, lay in ctx.pick([(1, (4,)), (3, (8,)), (4, (4,))], [(1, (4,)), (2, (2,)), (3, (8,)), (4, (4,)), (5, (3, 5)), (8, (8,))]):
+        width = sum(lay)
+        cases.append(_mk_multi(depth, lay, random_multi_ops(rng, ctx.pick(40, 300), width, 1.0, 1.0, 1.0, 0.05), "directed"))
+        for reg in REGIMES[: ctx.pick(4, 7)]:
+            cases.append(_mk_multi(depth, lay, random_multi_ops(rng, ctx.pick(80, 800), width, *reg), "random"))
+    return cases
 
 
 def directed(depth: int, width: int, rng) -> list[list]:
@@ -164,8 +206,8 @@ def gen_cases(ctx: Check) -> list[Case]:
         width = sum(lay)
         for seq in directed(depth, width, rng):
             cases.append(_mk(depth, lay, seq, "directed"))
-        n = ctx.pick(150, 800)
-        for reg in REGIMES:
+        n = ctx.pick(100, 800)
+        for reg in REGIMES[: ctx.pick(5, 7)]:
             cases.append(_mk(depth, lay, random_ops(rng, n, width, *reg), "random"))
     if ctx.thorough:
         for depth in (1, 2, 3):
@@ -178,6 +220,10 @@ def gen_cases(ctx: Check) -> list[Case]:
 
 def more_cases(case: Case, rng):
     d = case.desc
+    if d.get("callers"):
+        for k in range(40):
+            yield _mk_multi(d["depth"], tuple(d["layout"]), random_multi_ops(rng, 100, sum(d["layout"]), *REGIMES[k % len(REGIMES)]), "search")
+        return
     for k in range(40):
         yield _mk(d["depth"], tuple(d["layout"]), random_ops(rng, 200, sum(d["layout"]), *REGIMES[k % len(REGIMES)]), "search")
 
@@ -185,10 +231,12 @@ def more_cases(case: Case, rng):
 def run(ctx: Check):
     ctx.rule = (
         "case = (depth, layout, history of attempted write(data)/read/peek/clear per cycle); non-trivial = some cycle executes "
-        "read and write together or clear together with a write, or the stack becomes full and later empty again"
+        "read and write together or clear together with a write, or the stack becomes full and later empty again; "
+        "multi-caller cases (two transactions per method): non-trivial = two callers compete for a ready exclusive method"
     )
     ctx.proof_stage()
-    cases = gen_cases(ctx)
+    cases = gen_cases(ctx) + gen_multi(ctx)
+    ctx.count("cases_multi_caller", sum(1 for c in cases if c.desc.get("callers")))
     ctx.count("configs", len({c.cfg for c in cases}))
     lockstep(ctx, "stack", "C16", cases, impl, monitor, more_cases, nontrivial, procs=ctx.pick(1, 8))
 
